@@ -98,6 +98,76 @@ def unit_calculators(ctx):
     ctx.expect("calculators: a tp>0 path exists", npos >= 1)
 
 
+def unit_to_dict(ctx):
+    """calculate_all + to_dict: the exported dictionary holds exactly the metrics whose calculation does not raise, each with
+    the value the lazy attribute protocol yields (which the calculators unit ties to the definitions)."""
+    eng = ctx.engine()
+    tp, npred, nref = z3.Ints("tp npred nref")
+    vals_arr = {m: z3.Const(f"vals_{m}", z3.ArraySort(I, R)) for m in ALL_METRICS}
+
+    def mk_res(e):
+        lists = {metric(e, m): SymSeq(SymInt(tp), (lambda i, m=m: SymReal(z3.Select(vals_arr[m], i), np=True)), name=f"list_{m}") for m in ALL_METRICS}
+        h = e.call(e.resolve(EC + "EdgeCaseHandler"), [], {})
+        return e.call(e.resolve(PR + "PanopticaResult"), [], dict(
+            reference_arr=None, prediction_arr=None, num_pred_instances=SymInt(npred), num_ref_instances=SymInt(nref),
+            tp=SymInt(tp), list_metrics=lists, edge_case_handler=h))
+
+    def mk(e):
+        e.assume(wrap(z3.And(tp >= 0, tp <= npred, tp <= nref)))
+        return [mk_res(e), mk_res(e)], {}, {}
+
+    def target(res, twin):
+        # twin: an identical result object read attribute by attribute (the lazy protocol's own answer)
+        keys = list(eng.getattr(res, "_evaluation_metrics").keys())
+        direct = {}
+        for n in keys:
+            try:
+                direct[n] = eng.getattr(twin, n)
+            except PyRaise as ex:
+                direct[n] = ("raise", ex.exc.name())
+        eng.call(eng.getattr(res, "calculate_all"), [], {})
+        d = eng.call(eng.getattr(res, "to_dict"), [], {})
+        return keys, direct, d
+    paths = eng.run(target, mk)
+    fn = PR + "PanopticaResult.to_dict"
+    ctx.expect("to_dict: tp>0 and tp==0 paths explored", len(paths) >= 2)
+    info = {"prefer": [["(= tp 2)", "(<= npred 4)", "(<= nref 4)"], ["(<= tp 3)", "(<= npred 4)", "(<= nref 4)"]]}
+    nret = 0
+    for pi, p in enumerate(paths):
+        nm = "panoptica_result.PanopticaResult.calculate_all+to_dict"
+        if p.kind != "return":
+            ctx.oblige(f"{nm}/no-exception({p.exc.name() if p.exc else p.kind})#p{pi}", p.pc, z3.BoolVal(False), func=fn, replay="c02.todict", info=info)
+            continue
+        nret += 1
+        keys, direct, d = p.value
+        if not isinstance(d, dict):
+            ctx.oblige(f"{nm}/returns a dict#p{pi}", p.pc, z3.BoolVal(False), func=fn, replay="c02.todict", info=info)
+            continue
+        if pi == 0:
+            ctx.canary(f"{nm}#p{pi}", p.pc, func=fn)
+        raising = [k for k in keys if isinstance(direct[k], tuple) and direct[k][:1] == ("raise",)]
+        fine = [k for k in keys if k not in raising]
+        g_keys = set(d.keys()) == set(fine)
+        ctx.oblige(f"{nm}/post(keys = exactly the metrics whose calculation does not raise)#p{pi}", p.pc, z3.BoolVal(bool(g_keys)), func=fn, replay="c02.todict",
+                   info=dict(info, missing=str(sorted(set(fine) - set(d.keys()))[:5]), extra=str(sorted(set(d.keys()) - set(fine))[:5])))
+        g = []
+        for k in fine:
+            if k not in d:
+                continue
+            a, b = d[k], direct[k]
+            if isinstance(a, Sym) or isinstance(b, Sym):
+                try:
+                    g.append(to_term(a, "real") == to_term(b, "real"))
+                except Exception:
+                    g.append(z3.BoolVal(False))
+            elif isinstance(a, float) and a != a:
+                g.append(z3.BoolVal(isinstance(b, float) and b != b))
+            else:
+                g.append(z3.BoolVal(bool(a is b or a == b)))
+        ctx.oblige(f"{nm}/post(every exported value is the attribute's own value)#p{pi}", p.pc, z3.And(*g) if g else z3.BoolVal(True), func=fn, replay="c02.todict", info=info)
+    ctx.expect("to_dict: a returning path", nret >= 1)
+
+
 def eng_feasible(pc, extra):
     s = z3.Solver()
     s.set("timeout", 2000)
@@ -345,6 +415,7 @@ def build(ctx):
               "induction schema over naturals applied outside the solver (base/step discharged)")
     ctx.unit("calculators", lambda: unit_calculators(ctx))
     ctx.unit("lemmas", lambda: unit_lemmas(ctx))
+    ctx.unit("calculate_all+to_dict", lambda: unit_to_dict(ctx))
     for dec in (None, "IOU", "DSC", "ASSD"):
         ctx.unit(f"evaluate_matched_instance[{dec}]", lambda dec=dec: unit_eval_matched(ctx, dec, ["DSC", "IOU", "ASSD"]))
     ctx.unit("evaluate_matched_instance[RVD|all]", lambda: unit_eval_matched(ctx, "IOU", ["DSC", "IOU", "ASSD", "RVD"]))
@@ -368,7 +439,7 @@ def concretise(ctx, o, r):
         return {}
     if o.replay == "c02.frame":
         return {"decision": o.info.get("decision"), "metrics": o.info.get("metrics")}
-    if o.replay == "c02.result":
+    if o.replay in ("c02.result", "c02.todict"):
         tp = max(0, min(gi("tp"), 6))
         lists = {}
         for mn in ALL_METRICS:
